@@ -147,3 +147,6 @@ var NativeFS func(name, content string, mode int)
 
 // FilesRead lists the paths handed to os.ReadFile so far (engine only).
 func FilesRead() []string { return readLog }
+
+// Bound records a bound of the harness in the evidence.
+func Bound(name string, v int) {}
